@@ -4,6 +4,7 @@ package harness
 
 import (
 	"errors"
+	"math/rand"
 	"sort"
 	"time"
 
@@ -43,10 +44,31 @@ type Net struct {
 	latency time.Duration
 	// cap on requests in flight per directed link in manual mode (oldest dropped first)
 	maxPerLink int
+	// links (from, to) that stay under the step scheduler while the rest of the network is
+	// automatic; "*" matches any node
+	hold map[[2]string]bool
+	// auto mode: per-message delay drawn uniformly from [latency, latency+jitter]
+	jitter time.Duration
+	rng    *rand.Rand
 }
 
 func newNet(c *Cluster) *Net {
-	return &Net{c: c, rpcs: map[int]*RPC{}, blocked: map[[2]string]bool{}, maxPerLink: 4}
+	return &Net{c: c, rpcs: map[int]*RPC{}, blocked: map[[2]string]bool{}, maxPerLink: 4, hold: map[[2]string]bool{}, rng: rand.New(rand.NewSource(1))}
+}
+
+func (nt *Net) held(from, to string) bool {
+	return nt.hold[[2]string{from, to}] || nt.hold[[2]string{from, "*"}] || nt.hold[[2]string{"*", to}]
+}
+
+// Hold puts a directed link (or all links of a node, with "*") under the step scheduler.
+func (nt *Net) Hold(from, to string, on bool) {
+	nt.c.mu.Lock()
+	if on {
+		nt.hold[[2]string{from, to}] = true
+	} else {
+		delete(nt.hold, [2]string{from, to})
+	}
+	nt.c.mu.Unlock()
 }
 
 func (nt *Net) SetAuto(on bool) {
@@ -141,7 +163,7 @@ func (nt *Net) send(n *Node, r *RPC) error {
 	r.ch = make(chan struct{})
 	r.sent = time.Now()
 	nt.rpcs[r.ID] = r
-	auto := nt.auto
+	auto := nt.auto && !nt.held(r.From, r.To)
 	var victims []*RPC
 	if !auto && nt.maxPerLink > 0 {
 		var same []*RPC
@@ -181,6 +203,11 @@ func (nt *Net) autoDeliver(r *RPC) {
 	blockedOut := nt.blocked[[2]string{r.From, r.To}]
 	blockedBack := nt.blocked[[2]string{r.To, r.From}]
 	lat := nt.latency
+	lat2 := nt.latency
+	if nt.jitter > 0 {
+		lat += time.Duration(nt.rng.Int63n(int64(nt.jitter)))
+		lat2 += time.Duration(nt.rng.Int63n(int64(nt.jitter)))
+	}
 	c.mu.Unlock()
 	if blockedOut {
 		nt.finish(r, errNet, "drop_req")
@@ -198,8 +225,8 @@ func (nt *Net) autoDeliver(r *RPC) {
 		nt.finish(r, errNet, "drop_resp")
 		return
 	}
-	if lat > 0 {
-		time.Sleep(lat)
+	if lat2 > 0 {
+		time.Sleep(lat2)
 	}
 	nt.finish(r, nil, "reply")
 }
@@ -283,7 +310,7 @@ func (nt *Net) handle(r *RPC) {
 		r.Phase = 1
 	}
 	manual := 0
-	if !nt.auto {
+	if !nt.auto || nt.held(r.From, r.To) {
 		manual = 1
 	}
 	c.mu.Unlock()
